@@ -31,7 +31,7 @@ func init() {
 	register(&Family{
 		Name:    "teardown",
 		Run:     runTeardown,
-		Oracles: []func(*World, *History){OracleHung("C04"), OracleC04, OracleLeak, OracleC01},
+		Oracles: []func(*World, *History){OracleHung("C04"), OracleC04, OracleStopCalls, OracleLeak, OracleC01},
 		Nontrivial: func(w *World, h *History) bool {
 			return h.Derived["probe.tunnel_ended_with_inflight_rpcs"] > 0
 		},
@@ -131,6 +131,11 @@ func runTeardown(w *World, rs *RunSpec) {
 		w.Desc["cause"] = causeNames[cause]
 		w.Desc["fault_frame"] = k
 	}
+	nStop := 1
+	if rs.P("multistop", 0) == 1 && t.RevServer != nil && (cause == CauseStop || cause == CauseGracefulThenStop) {
+		nStop = 1 + c.Intn(3, "nstop")
+		w.Desc["concurrent_stop_calls"] = nStop
+	}
 	inject := func() {
 		out := outermost(t)
 		switch cause {
@@ -143,7 +148,7 @@ func runTeardown(w *World, rs *RunSpec) {
 		case CauseStop:
 			simrt.Count(CntFaultStop, 1)
 			if t.RevServer != nil {
-				t.RevServer.Stop()
+				callStops(t, nStop)
 			} else {
 				out.Conn.Break("server-stop")
 			}
@@ -152,12 +157,11 @@ func runTeardown(w *World, rs *RunSpec) {
 			if t.RevServer != nil {
 				done := make(chan struct{})
 				simrt.Go("graceful", func() {
-					t.RevServer.GracefulStop()
-					simrt.Emit(simrt.Event{Kind: EvTunnel, S: "graceful-stop-returned", A: int64(t.Idx)})
+					callGracefulStop(t, 0)
 					close(done)
 				})
 				simrt.Yield(simrt.ClassApp)
-				t.RevServer.Stop()
+				callStops(t, nStop)
 				simrt.Recv(done)
 			} else {
 				t.Handler.InitiateShutdown()
